@@ -172,6 +172,7 @@ func (r *QuotientRing) PolynomialFromString(s string) (*Polynomial, error) {
 		}
 		f.SetCoef(deg, f.Coef(deg).Plus(coef))
 	}
+	f.reduce()
 	return f, nil
 }
 
